@@ -739,7 +739,7 @@ pub fn c09(seed: u64, budget: u64) -> FOut {
 /// C13: timer epochs with an exactly-once runtime
 pub fn c13(seed: u64, budget: u64) -> FOut {
     let mut out = FOut::default();
-    out.rule = "histories (300 calls) on the real crate with an exactly-once timer runtime: every timer delivered comes from the pending set (earliest deadline first in 'ordered' histories, random order otherwise), interleaved with datagrams and API calls that flip connection state / identity and with set_config; all 8 combinations of periodic tasks. After every call: connected => exactly one pending probe timer and exactly one pending timer per enabled periodic task carrying the current token (at most one when the task is currently disabled); not connected => no pending token-carrying timer with the current token; a delivered timer with a stale token has no effect; ordered delivery never errors; any order yields Ok or IncompleteProbeCycle. distinct = histories with at least 3 connection-epoch changes".into();
+    out.rule = "histories (300 calls) on the real crate with an exactly-once timer runtime: every timer delivered comes from the pending set (earliest deadline first - ties in the order of Timer's own Ord, the clock being exact or coarse (deadlines rounded up to a tick of 1 or 3 probe periods) - in 'ordered' histories, random order otherwise), interleaved with datagrams and API calls that flip connection state / identity and with set_config; all 8 combinations of periodic tasks. After every call: connected => exactly one pending probe timer and exactly one pending timer per enabled periodic task carrying the current token (at most one when the task is currently disabled); not connected => no pending token-carrying timer with the current token; a delivered timer with a stale token has no effect; ordered delivery never errors; any order yields Ok or IncompleteProbeCycle. distinct = histories with at least 3 connection-epoch changes".into();
     for h in 0..budget {
         let hs = seed.wrapping_mul(50021).wrapping_add(h);
         let mut g = G::new(hs);
@@ -752,6 +752,13 @@ pub fn c13(seed: u64, budget: u64) -> FOut {
             cfg.max_packet_size = 200;
         }
         let ordered = g.chance(50);
+        // clock granularity of the simulated runtime: exact, or coarse enough that the two probe
+        // timers of a round can fall due in the same tick (then Timer's Ord decides)
+        let gran: u128 = match g.below(4) {
+            0 | 1 => 1,
+            2 => cfg.probe_period.max(1),
+            _ => (cfg.probe_period * 3).max(1),
+        };
         let id = VId { a: 9, g: 1, k: g.below(4) as u8, pad: 0 };
         let mut inst = Inst::new(id, &cfg, g.next(), 0, 255);
         let mut pending: Vec<(u128, u64, MTimer)> = vec![]; // deadline, seqno, timer
@@ -765,11 +772,13 @@ pub fn c13(seed: u64, budget: u64) -> FOut {
             let deliver = !pending.is_empty() && g.chance(45);
             let input = if deliver {
                 let idx = if ordered {
+                    // earliest deadline first; equal deadlines in the order of Timer's own Ord
+                    // (src/runtime.rs), then in submission order
                     let mut best = 0;
                     for (i, p) in pending.iter().enumerate() {
                         let b = &pending[best];
-                        let key = |x: &(u128, u64, MTimer)| (x.0, timer_seq(&x.2), x.1);
-                        if key(p) < key(b) {
+                        let ord = p.0.cmp(&b.0).then_with(|| p.2.to_timer().cmp(&b.2.to_timer())).then(p.1.cmp(&b.1));
+                        if ord == std::cmp::Ordering::Less {
                             best = i;
                         }
                     }
@@ -806,7 +815,9 @@ pub fn c13(seed: u64, budget: u64) -> FOut {
             for e in &effs {
                 if let Eff::Submit(t, after) = e {
                     seqno += 1;
-                    pending.push((now + after, seqno, t.clone()));
+                    // the runtime's clock may be coarse: deadlines rounded up to a multiple of `gran`
+                    let dl = now + after;
+                    pending.push(((dl + gran - 1) / gran * gran, seqno, t.clone()));
                 }
             }
             if let Input::Timer(t) = &input {
@@ -859,18 +870,6 @@ pub fn c13(seed: u64, budget: u64) -> FOut {
         }
     }
     out
-}
-
-fn timer_seq(t: &MTimer) -> u8 {
-    match t {
-        MTimer::Indirect(..) => 0,
-        MTimer::Probe(_) => 1,
-        MTimer::SuspectToDown(..) => 2,
-        MTimer::Announce(_) => 3,
-        MTimer::Gossip(_) => 4,
-        MTimer::RemoveDown(_) => 5,
-        MTimer::AnnounceDown(_) => 6,
-    }
 }
 
 /// rejected inputs of every class, relative to the current state
